@@ -624,6 +624,47 @@ func init() {
 			}, nil
 		}
 	}
+	// component lists around the array-head boundaries (23/24, 255/256)
+	for _, prop := range []string{"C09", "C10"} {
+		prop := prop
+		Scenarios[strings.ToLower(prop)+".many-components"] = func() (choice.Scenario, func() any) {
+			return func(c *choice.Ctx) {
+				kind := c.Choose("profile", 3)
+				n := []int{24, 22, 23, 25, 26, 255, 256, 257}[c.Choose("ncomps", 8)]
+				how := c.Choose("build", 3)
+				a := genValid(&choice.Ctx{}, kind, false)
+				a.CompsNil, a.NoMeas, a.Comps = false, nil, nil
+				for i := 0; i < n; i++ {
+					sc := okComp(byte(i), []int{32, 48, 64}[i%3])
+					if i%5 == 0 {
+						sc.Version = sp(fmt.Sprint("v", i))
+					}
+					a.Comps = append(a.Comps, sc)
+				}
+				x, err := buildValid(a, how)
+				if err != nil {
+					c.Failf(prop+":build:many-components", "cannot build a claims-set with %d components (%s): %v", n, buildNames[how], err)
+					return
+				}
+				tag := fmt.Sprintf("%s:%s:%d-components", kindNames[kind], buildNames[how], n)
+				encStats.StateStr(tag)
+				if prop == "C09" {
+					c09Valid(c, encStats, a, x, tag)
+					return
+				}
+				enc, err := psatoken.ValidateAndEncodeClaimsToCBOR(x)
+				if err != nil {
+					c.Failf("C10:encode-error:"+tag, "%v", err)
+					return
+				}
+				extra := map[int64]bool{}
+				if kind >= kindExtP2 {
+					extra[-75100] = true
+				}
+				c10Strict(c, encStats, a, enc, tag, extra)
+			}, nil
+		}
+	}
 	// C12: the JSON path after prior calls that may leave something behind (single goroutine)
 	Scenarios["c12.after-prior-calls"] = func() (choice.Scenario, func() any) {
 		return func(c *choice.Ctx) {
@@ -653,6 +694,8 @@ func init() {
 			exploreChoiceOpts(r, lp+".returned-bytes", 3, dl, 1)
 			if prop == "C12" {
 				exploreChoiceOpts(r, "c12.after-prior-calls", 2, dl, 1)
+			} else {
+				exploreChoice(r, lp+".many-components", -1, dl)
 			}
 			for kind := 0; kind < 3; kind++ {
 				exploreChoice(r, fmt.Sprintf("%s.valid.%s", lp, kindNames[kind]), b, dl)
